@@ -425,6 +425,8 @@ class Ref:
                     if not isinstance(it, int) and it[0] == "A" and all(isinstance(x, int) for x in it[1][0]):
                         k = canon_key(render(it[1][0]))
                         val = env.get(k)
+                        if val is None and len(it[1]) >= 2 and all(isinstance(x, int) for x in it[1][1]):
+                            val = render(it[1][1])          # an unbound parameter's plain default is substituted the same way
                         if isinstance(val, str) and "\0" not in val and "\1" not in val:
                             a2 += [ord(ch) for ch in (val[:-1] if self.kludge and val.endswith("\n") else val)]
                             continue
